@@ -9,8 +9,12 @@ package mysql
 
 import (
 	"context"
+	"database/sql"
+	"errors"
 	"time"
 
+	mysqldriver "github.com/go-sql-driver/mysql"
+	"github.com/jmoiron/sqlx"
 	"github.com/rs/zerolog"
 	"github.com/yandex/mysync/internal/config"
 	"github.com/yandex/mysync/internal/verifnd"
@@ -94,5 +98,128 @@ func H_C08_node_readonly() {
 		verifnd.Assert(verifnd.Iff(repSRO == 1, super), "node.ro-nil-means-verified")
 	} else {
 		verifnd.Reach("C08.node.error")
+	}
+}
+
+// H_C08_funnels — the four query funnels of *Node themselves (inner cut, see
+// zz_verif_funnels.go): the error a statement ends with reaches the caller in a form the
+// callers' classification still recognises. stateLost, SetReadOnly and the switchover code
+// tell a client-side deadline (errors.Is context.DeadlineExceeded), a lock-wait timeout and
+// other server errors (errors.As *MySQLError with its number) and an empty result
+// (sql.ErrNoRows) apart; every harness built on the fleet model assumes this transparency.
+func H_C08_funnels() {
+	cfg := &config.Config{
+		Queries:             map[string]string{},
+		DBTimeout:           5 * time.Second,
+		DBSetRoTimeout:      30 * time.Second,
+		DBSetRoForceTimeout: 30 * time.Second,
+	}
+	l := zerolog.Nop()
+	n, _ := NewNode(cfg, &l, "h0")
+	VerifHook_Node_execWithTimeout, VerifHook_Node_execMogrifyWithTimeout = nil, nil
+	VerifHook_Node_queryRowWithTimeout, VerifHook_Node_queryRowMogrifyWithTimeout = nil, nil
+	VerifHook_Node_GetDB = func(n *Node) (*sqlx.DB, error) { return nil, nil }
+	VerifHook_Node_traceQuery = func(n *Node, query string, arg any, result any, err error) {}
+	VerifHook_Mogrify = func(query string, arg map[string]any) string { return query }
+
+	// what the server does with the statement
+	const (
+		oOK = iota
+		oDeadline
+		oLockWait
+		oServerErr
+		oRefused
+		oNoRows
+	)
+	outcome := verifnd.Choose("outcome", 6)
+	lockTimeoutFails := verifnd.Choose("lock-timeout-statement.fails", 2) == 1
+	var seen []string
+	verifInner = func(n *Node, kind, queryName string, arg any, result any) error {
+		seen = append(seen, kind+":"+queryName)
+		if queryName == querySetLockTimeout {
+			if lockTimeoutFails {
+				return ErrVerifRefused
+			}
+			return nil
+		}
+		switch outcome {
+		case oDeadline:
+			return context.DeadlineExceeded
+		case oLockWait:
+			return verifMyErr(1205)
+		case oServerErr:
+			return verifMyErr(1064)
+		case oRefused:
+			return ErrVerifRefused
+		case oNoRows:
+			if kind == "query" {
+				return sql.ErrNoRows
+			}
+			return nil
+		}
+		if r, ok := result.(*readOnlyResult); ok {
+			r.ReadOnly, r.SuperReadOnly = 1, 1
+		}
+		return nil
+	}
+
+	funnel := verifnd.Choose("funnel", 4)
+	var err error
+	var res readOnlyResult
+	isExec := funnel < 2
+	switch funnel {
+	case 0:
+		err = n.execWithTimeout(querySetReadonly, nil, cfg.DBSetRoTimeout)
+	case 1:
+		err = n.execMogrifyWithTimeout(queryStopReplica, map[string]any{"channel": ""}, cfg.DBTimeout)
+	case 2:
+		err = n.queryRowWithTimeout(queryIsReadOnly, nil, &res, cfg.DBTimeout)
+	case 3:
+		err = n.queryRowMogrifyWithTimeout(queryIsReadOnly, map[string]any{"channel": ""}, &res, cfg.DBTimeout)
+	}
+	verifnd.Fact("funnel", []string{"execWithTimeout", "execMogrifyWithTimeout", "queryRowWithTimeout", "queryRowMogrifyWithTimeout"}[funnel])
+
+	if funnel == 0 && lockTimeoutFails {
+		// the preparatory SET lock_wait_timeout failed: the statement itself must not be sent
+		verifnd.Assert(err != nil, "funnel.lock-timeout-error-returned")
+		verifnd.Assert(len(seen) == 1, "funnel.nothing-after-failed-preparation")
+		verifnd.Reach("C08.funnel.preparation-failed")
+		return
+	}
+	// the statement was sent exactly once
+	sent := 0
+	for _, s := range seen {
+		if s != "exec:"+querySetLockTimeout {
+			sent++
+		}
+	}
+	verifnd.Assert(sent == 1, "funnel.statement-sent-once")
+
+	var me *mysqldriver.MySQLError
+	switch outcome {
+	case oOK:
+		verifnd.Assert(err == nil, "funnel.ok-is-nil")
+		if !isExec {
+			verifnd.Assert(res.ReadOnly == 1 && res.SuperReadOnly == 1, "funnel.row-delivered")
+		}
+		verifnd.Reach("C08.funnel.ok")
+	case oDeadline:
+		verifnd.Assert(err != nil && errors.Is(err, context.DeadlineExceeded), "funnel.deadline-recognisable")
+		verifnd.Reach("C08.funnel.deadline")
+	case oLockWait:
+		verifnd.Assert(err != nil && errors.As(err, &me) && me.Number == 1205, "funnel.server-error-recognisable")
+		verifnd.Assert(err == nil || !errors.Is(err, context.DeadlineExceeded), "funnel.server-error-not-a-deadline")
+		verifnd.Reach("C08.funnel.lockwait")
+	case oServerErr:
+		verifnd.Assert(err != nil && errors.As(err, &me) && me.Number == 1064, "funnel.server-error-recognisable")
+	case oRefused:
+		verifnd.Assert(err != nil && errors.Is(err, ErrVerifRefused), "funnel.connection-error-returned")
+	case oNoRows:
+		if isExec {
+			verifnd.Assert(err == nil, "funnel.ok-is-nil")
+		} else {
+			verifnd.Assert(err == sql.ErrNoRows, "funnel.empty-result-is-no-rows")
+			verifnd.Reach("C08.funnel.norows")
+		}
 	}
 }
